@@ -281,7 +281,18 @@ impl Gen<'_> {
                 u.out.push(a);
                 u.out.push(b);
             }
-            95..=97 => {
+            95 => {
+                // an option that changes how the NEXT line is parsed
+                let (a, b) = (self.w(), self.w());
+                u.lines.push("set -o portable".into());
+                u.lines.push(format!("echo {a}"));
+                u.lines.push("set +o portable".into());
+                u.lines.push(format!("arr{}=(p q r)", self.word));
+                u.lines.push(format!("echo {b}"));
+                u.out.push(a);
+                u.out.push(b);
+            }
+            96..=97 => {
                 let w = self.w();
                 let mut l = match self.rng.below(3) {
                     0 => format!("( echo {w} )"),
@@ -306,6 +317,18 @@ impl Gen<'_> {
 }
 
 fn error_unit(rng: &mut Rng) -> Unit {
+    if rng.below(5) == 0 {
+        // the option set on the previous line makes this line a syntax error
+        return Unit {
+            lines: vec!["set -o portable".to_string(), "brr=(1 2)".to_string()],
+            out: vec![],
+            tells: vec![],
+            status: Some(2),
+            reads_stdin: false,
+            exits: true,
+            error: true,
+        };
+    }
     let line = *rng.pick(&[
         "fi",
         "done",
